@@ -1,7 +1,7 @@
 """C10 (zone manager part) and C16 -- TimeZone as a value: equality, manual offsets, save/restore."""
 import z3
 from .reg import contract, lemma, bv32, sx, zx, byte, LemmaOb, instantiate
-from vc.symex import LoopSpec, Ptr, BV
+from vc.symex import MemView, LoopSpec, Ptr, BV
 from . import registrar as rg
 from .registrar import G, IDG, ZIG, KEY, INVALID, absent, id_absent, monotone
 
@@ -276,6 +276,19 @@ contract('virtual ace_time::ZoneProcessor::getDeltaOffset(int) const', extern=Tr
 contract('virtual ace_time::ZoneProcessor::getAbbrev(int) const', extern=True, model=_query_model('getAbbrev', 'ptr'))
 contract('virtual ace_time::ZoneProcessor::getOffsetDateTime(ace_time::LocalDateTime const&) const', extern=True,
          model=_query_model('getOffsetDateTime', 64))
+def _get_zone_id_model(ex, st, c):
+    # contract of every override (BasicZoneProcessor / ExtendedZoneProcessor::getZoneId read mZoneInfo): the id recorded in the
+    # zone info the processor is bound to -- NOT necessarily the zone of the TimeZone that asks
+    p = ex.ptr_to_bv(c.args[0])
+    zi = z3.Select(_bound(st), p)
+    st.log.append(('getZoneId', p, [zi]))
+    off, n = ex.mod.field('ace_time::basic::ZoneInfo', 'zoneId')       # same offset in extended::ZoneInfo
+    view = MemView(ex, st.bytes, st.mem, dict(st.typed))
+    return view.load(Ptr(None, zi + off), n)
+
+
+contract('virtual ace_time::ZoneProcessor::getZoneId() const', extern=True, model=_get_zone_id_model,
+         note='contract of both overrides: the zone id recorded in the zone info the processor is currently bound to')
 contract('virtual ace_time::ZoneProcessor::printTo(Print&) const', extern=True, model=_query_model('printTo', None))
 contract('virtual ace_time::ZoneProcessor::printShortTo(Print&) const', extern=True, model=_query_model('printShortTo', None))
 
